@@ -8,7 +8,7 @@ CONSTANTS
   Changes = {c1, c2}
   MaxPend = 2
   Dev <- None
-  Budget <- Bq
+  Budget <- Bt
 SYMMETRY Sym
 INVARIANT TypeOK
 INVARIANT IdxFollowsStore
